@@ -651,21 +651,21 @@ BRIDGE_FP = "2B280B23E1107BB62ABFC40DDCC8824814F80A72"
 
 def rand_poll(rng):
     """a client poll message (never '{'-leading: that is the legacy format the AMP endpoint does not take)"""
-    mode = rng.randrange(10)
-    nat = rng.choice(["unknown", "restricted", "unrestricted", "", "bogus"])
-    offer = "".join(rng.choice("abcv=0 \\n/+-_") for _ in range(rng.choice([0, 1, 10, 200, 3000])))
-    offer = offer.replace("\\n", "\\\\n")
-    if mode <= 4:
+    import json
+    mode = rng.randrange(12)
+    nat = rng.choice(["unknown", "restricted", "unrestricted", "unknown", "restricted", "unrestricted", "", "bogus"])
+    offer = json.dumps({"type": "offer", "sdp": "".join(rng.choice("abcv=0 \n/+-_\"\\") for _ in range(rng.choice([0, 1, 10, 200, 3000])))})
+    if mode <= 6:
         fp = rng.choice(["", "", BRIDGE_FP, BRIDGE_FP.lower()])
-        return ('1.0\n{"offer":"%s","nat":"%s","fingerprint":"%s"}' % (offer, nat, fp)).encode()
-    if mode == 5:  # unknown bridge / bad fingerprint
+        return b"1.0\n" + json.dumps({"offer": offer, "nat": nat, "fingerprint": fp}).encode()
+    if mode == 7:  # unknown bridge / bad fingerprint
         fp = rng.choice(["00" * 20, "zz", "2B28", BRIDGE_FP[:-2] + "73"])
-        return ('1.0\n{"offer":"%s","nat":"%s","fingerprint":"%s"}' % (offer, nat, fp)).encode()
-    if mode == 6:
+        return b"1.0\n" + json.dumps({"offer": offer, "nat": nat, "fingerprint": fp}).encode()
+    if mode == 8:
         return rng.choice([b"", b"1.0", b"1.0\n", b"2.0\n{}", b"1.0\n{}", b"1.0\nnot json", b"\n", b"x", b"1.0\n{\"offer\":\"\"}", b" {", b"1.0\n[1]"])
-    if mode == 7:
+    if mode == 9:
         return bytes(rng.choice([0, 10, 13, 0x7b, 0xff, 0x31, rng.randrange(256)]) for _ in range(rng.randrange(1, 40))).lstrip(b"{") or b"x"
-    return ('1.0\n{"offer":"%s","nat":"%s"}' % (offer, nat)).encode()
+    return b"1.0\n" + json.dumps({"offer": offer, "nat": nat}).encode()
 
 
 def gen_broker(ctx):
